@@ -3,7 +3,6 @@ package main
 import (
 	"fmt"
 	"go/types"
-	"regexp"
 	"sort"
 	"strings"
 
@@ -15,7 +14,6 @@ type closureInfo struct {
 	binds []Term
 }
 
-var typeArgsRe = regexp.MustCompile(`\[[^\]]*\]`)
 
 // funcKey is the contract key of an SSA function: "<pkgpath>.<RelName>" with type
 // arguments stripped, e.g. "github.com/x/y.(*T).M".
@@ -26,11 +24,11 @@ func funcKey(fn *ssa.Function) string {
 	if fn.Pkg == nil {
 		// methods of instantiated/external types, wrappers...
 		if fn.Object() != nil && fn.Object().Pkg() != nil {
-			return fn.Object().Pkg().Path() + "." + typeArgsRe.ReplaceAllString(fn.RelString(fn.Object().Pkg()), "")
+			return fn.Object().Pkg().Path() + "." + stripTypeArgs(fn.RelString(fn.Object().Pkg()))
 		}
-		return typeArgsRe.ReplaceAllString(fn.String(), "")
+		return stripTypeArgs(fn.String())
 	}
-	return fn.Pkg.Pkg.Path() + "." + typeArgsRe.ReplaceAllString(fn.RelString(fn.Pkg.Pkg), "")
+	return fn.Pkg.Pkg.Path() + "." + stripTypeArgs(fn.RelString(fn.Pkg.Pkg))
 }
 
 var effectFreePrefixes = []string{
@@ -144,7 +142,7 @@ func (fr *Frame) call(st *State, v ssa.Value, cc *ssa.CallCommon, in ssa.Instruc
 		if err != nil {
 			return fr.unsupportedErr(in, err)
 		}
-		key := typeArgsRe.ReplaceAllString(typeKey(cc.Value.Type()), "") + "." + cc.Method.Name()
+		key := stripTypeArgs(typeKey(cc.Value.Type())) + "." + cc.Method.Name()
 		if c := vc.ifaceContractFor(key); c != nil {
 			sig := cc.Method.Type().(*types.Signature)
 			rs, err := fr.applyContract(st, c, key, sig, cc.Value.Type(), append([]Term{recv}, args...), in)
@@ -162,6 +160,11 @@ func (fr *Frame) call(st *State, v ssa.Value, cc *ssa.CallCommon, in ssa.Instruc
 			}
 			setResults(rs)
 			return nil
+		}
+		if it, ok := cc.Value.Type().Underlying().(*types.Interface); ok {
+			if cands := vc.ctx.implementations(it, short); len(cands) > 0 && len(cands) <= 12 {
+				return fr.devirtualize(st, cands, recv, args, cc, in, setResults, freshResults)
+			}
 		}
 		return unmodelled("interface method without contract: " + key)
 	}
@@ -317,6 +320,103 @@ func (fr *Frame) callSiteChecks(st *State, cc *ssa.CallCommon, args []Term, in s
 			Taint: st.taint, Pos: fr.pos(in.Pos()), Descr: "at call of " + name + ": " + cs.Clause.Src})
 		st.assume(t)
 	}
+}
+
+func sealedInterface(it *types.Interface) bool {
+	for i := 0; i < it.NumMethods(); i++ {
+		if !it.Method(i).Exported() {
+			return true
+		}
+	}
+	return false
+}
+
+// devirtualize models a dynamic call by case analysis over the in-repo implementations of the
+// interface (by runtime tag); any other dynamic type is an unmodelled call.
+func (fr *Frame) devirtualize(st *State, cands []implCand, recv Term, args []Term, cc *ssa.CallCommon, in ssa.Instruction,
+	setResults func([]Term), freshResults func(*State, bool) ([]Term, error)) error {
+	vc := fr.vc
+	fr.safe(st, "nil", Neq(ITag(recv), IntLit(0)), in, "method call on nil interface")
+	nres := cc.Signature().Results().Len()
+	var branches []*State
+	var results [][]Term
+	var known []Term
+	for _, cand := range cands {
+		tag := IntLit(int64(vc.tt.TID(cand.recv)))
+		known = append(known, Eq(ITag(recv), tag))
+		b := st.clone()
+		b.assume(Eq(ITag(recv), tag))
+		b.reach = vc.Define("reach", b.reach)
+		var recvArg Term
+		if _, isPtr := cand.recv.(*types.Pointer); isPtr {
+			recvArg = IRefOf(recv)
+			b.assume(Neq(Rid(recvArg), IntLit(0)))
+		} else {
+			v, err := vc.loadRaw(b, IRefOf(recv), cand.recv)
+			if err != nil {
+				return fr.unsupportedErr(in, err)
+			}
+			recvArg = v
+		}
+		var rs []Term
+		set := func(r []Term) { rs = r }
+		unm := func(why string) error {
+			vc.note("%s: unmodelled implementation %s: %s", fr.pos(in.Pos()), cand.fn, why)
+			b.taint = True
+			vc.havocAll(b)
+			r, err := freshResults(b, false)
+			rs = r
+			return err
+		}
+		fn := cand.fn
+		callArgs := append([]Term{recvArg}, args...)
+		if len(fn.Params) != 0 && len(fn.Params) != len(callArgs) {
+			return fr.unsupportedErr(in, fmt.Errorf("devirtualised call arity mismatch for %s", fn))
+		}
+		if err := fr.staticCall(b, fn, nil, callArgs, in, set, freshResults, unm); err != nil {
+			return err
+		}
+		if len(rs) != nres {
+			r, err := freshResults(b, false)
+			if err != nil {
+				return fr.unsupportedErr(in, err)
+			}
+			rs = r
+		}
+		branches = append(branches, b)
+		results = append(results, rs)
+	}
+	if it, ok := cc.Value.Type().Underlying().(*types.Interface); ok && sealedInterface(it) {
+		// an interface with an unexported method can only be implemented in its own package:
+		// the implementations found are all there are
+		vc.assume("sealed interface " + stripTypeArgs(typeKey(cc.Value.Type())) + ": only the in-package implementations exist (it has an unexported method)")
+	} else {
+		// unknown dynamic type
+		d := st.clone()
+		d.assume(Not(Or(known...)))
+		d.reach = vc.Define("reach", d.reach)
+		d.taint = True
+		vc.havocAll(d)
+		drs, err := freshResults(d, false)
+		if err != nil {
+			return fr.unsupportedErr(in, err)
+		}
+		vc.note("%s: dynamic call %s: %d in-repo implementations analysed; other dynamic types are unmodelled", fr.pos(in.Pos()), cc.Method.Name(), len(cands))
+		branches = append(branches, d)
+		results = append(results, drs)
+	}
+	merged := vc.mergeStates(branches)
+	out := make([]Term, nres)
+	for k := 0; k < nres; k++ {
+		t := results[len(results)-1][k]
+		for i := len(results) - 2; i >= 0; i-- {
+			t = Ite(branches[i].reach, results[i][k], t)
+		}
+		out[k] = vc.Define("dyn", t)
+	}
+	*st = *merged
+	setResults(out)
+	return nil
 }
 
 func shortKey(key string) string {
@@ -807,13 +907,21 @@ func (fr *Frame) callEffects(ci ssa.CallInstruction, li *loopInfo, ef *effects) 
 		}
 	}
 	if cc.IsInvoke() {
-		key := typeArgsRe.ReplaceAllString(typeKey(cc.Value.Type()), "") + "." + cc.Method.Name()
+		key := stripTypeArgs(typeKey(cc.Value.Type())) + "." + cc.Method.Name()
 		if c := vc.ifaceContractFor(key); c != nil {
 			fr.contractCallEffects(c, cc.Method.Type().(*types.Signature), cc.Value.Type(), append([]ssa.Value{cc.Value}, cc.Args...), li, ef)
 			return
 		}
 		if cc.Method.Name() == "Error" || cc.Method.Name() == "String" || isEffectFree(key) {
 			return
+		}
+		if it, ok := cc.Value.Type().Underlying().(*types.Interface); ok && sealedInterface(it) {
+			if cands := vc.ctx.implementations(it, cc.Method.Name()); len(cands) > 0 && len(cands) <= 12 {
+				for _, cand := range cands {
+					fr.funcEffects(cand.fn, ef, 0)
+				}
+				return
+			}
 		}
 		ef.all = true
 		return
@@ -942,6 +1050,31 @@ func (fr *Frame) contractCallEffects(c *FuncContract, sig *types.Signature, recv
 				continue
 			}
 		}
+		// p.f with a single-slot field of a loop-invariant pointer parameter: the exact address
+		if m.Kind == EField && m.Args[0].Kind == EIdent && vc.tt.Slots(t) == 1 && rok && root.Valid() {
+			if pt, isP := tys[idx].Underlying().(*types.Pointer); isP {
+				if stt, isS := pt.Elem().Underlying().(*types.Struct); isS {
+					if pv, err := fr.value(argVals[idx]); err == nil && pv.Sort == SRef {
+						done := false
+						for fi := 0; fi < stt.NumFields(); fi++ {
+							if stt.Field(fi).Name() == m.Op {
+								addr := RefAdd(pv, IntLit(vc.tt.FieldOffset(stt, fi)))
+								for s := range leaf {
+									ef.exact[s] = append(ef.exact[s], addr)
+									if _, has := ef.sorts[s]; !has {
+										ef.sorts[s] = nil
+									}
+								}
+								done = true
+							}
+						}
+						if done {
+							continue
+						}
+					}
+				}
+			}
+		}
 		for s := range leaf {
 			switch {
 			case rok && !root.Valid():
@@ -1043,7 +1176,7 @@ func (fr *Frame) funcEffects(fn *ssa.Function, ef *effects, depth int) {
 			case ssa.CallInstruction:
 				cc := x.Common()
 				if cc.IsInvoke() {
-					key := typeArgsRe.ReplaceAllString(typeKey(cc.Value.Type()), "") + "." + cc.Method.Name()
+					key := stripTypeArgs(typeKey(cc.Value.Type())) + "." + cc.Method.Name()
 					if c := vc.ifaceContractFor(key); c != nil {
 						fr.contractEffects(c, ef)
 					} else if !(cc.Method.Name() == "Error" || cc.Method.Name() == "String" || isEffectFree(key)) {
